@@ -39,12 +39,16 @@ def tok_classifier(pkey, nontrivial_rule):
         if flags.get(pkey) == "0":
             info["prop_fail"] = pkey + "-predicate"
             info["why"] = f"property predicate {pkey} is false on the implementation's output"
+        elif pkey == "C02" and flags.get("C02S") == "0" and impl != mobs:
+            # not the recorded finding F24 (there the model, which follows the loop of the pinned code, reports the same)
+            info["prop_fail"] = "not-minimum-over-candidate-segmentations"
+            info["why"] = "the reported total cost is not the minimum over all candidate segmentations (specMin), and the model of the code reports something else"
         elif pkey == "C02" and flags.get("C02S") == "0":
             info["prop_fail"] = "dead-end-boundary-after-skipped-spaces"
             info["why"] = ("a strictly cheaper sequence of candidate words exists that passes through a boundary the lattice loop never "
                            "uses as a start node (a word ending inside / right after a run of skipped spaces)")
             tags.append("specmin=differs")
-        elif "panic" in impl.split() and pkey in ("C01",) and "panic" not in mobs.split():
+        elif "panic" in impl.split() and pkey in ("C01", "C02", "C04") and "panic" not in mobs.split():
             info["prop_fail"] = "panic"
             info["why"] = "the implementation panicked where the model returns a value"
         return info
@@ -798,13 +802,18 @@ PROPS = {
         "assumptions": [],
     },
     "C10": {
-        "modules": ["Vibrato.Props.C10"],
+        "modules": ["Vibrato.Props.C10", "Vibrato.Props.C10big"],
         "theorems": ["Vibrato.builders_total", "Vibrato.parsers_total", "Vibrato.LexCsv.parseCsv_ne_panic",
                      "Vibrato.resetUser_total", "Vibrato.mapIds_total", "Vibrato.builders_establish_wf",
                      "Vibrato.builders_preserve_wf", "Vibrato.builders_total_any_history", "Vibrato.accepted_ids_in_range",
                      "Vibrato.wf_is_safe", "Vibrato.accepted_is_safe", "Vibrato.accepted_tokenizes",
                      "Vibrato.no_silent_miscategorisation", "Vibrato.packing_roundtrip_param", "Vibrato.layout_fits",
-                     "Vibrato.astral_reads_entry_zero", "Vibrato.f9_accepted_dictionary_panics"],
+                     "Vibrato.astral_reads_entry_zero", "Vibrato.f9_accepted_dictionary_panics",
+                     # the bigram builder path (from_readers_with_bigram_info, raw and dual connector), modelled end to end
+                     "Vibrato.bigram_builders_total", "Vibrato.bigram_dict_builders_total", "Vibrato.bigram_builders_establish_wf",
+                     "Vibrato.bigram_accepted_is_safe", "Vibrato.bigram_accepted_is_safe_i32", "Vibrato.bigram_total_any_history",
+                     "Vibrato.bigram_cost_total", "Vibrato.bigram_table_is_cost", "Vibrato.bigram_connector_dims",
+                     "Vibrato.pinned_builder_panics", "Vibrato.dual_u16_conn_id_panics", "Vibrato.raw_cost_panics_at_u16_max"],
         "streams": c10_streams,
         "rule": "valid definition files from the structured generator + one corruption per case (16 kinds: empty file, byte "
                 "delete/insert/replace, cut, drop/duplicate field, swapped lines, out-of-range numbers, CRLF, BOM, missing final newline, "
